@@ -216,6 +216,18 @@ func PerformInvite(ctx context.Context, input PerformInviteInput, fedClient Fede
 			}
 			logger.Debugf("Federated SendInviteV3 success to user %s", input.Invitee.String())
 
+			// The remote server fills in the invitee's sender ID; apart from that the event must be
+			// the invite we asked for. Check that before the inviter's key signs it.
+			if inviteEvent == nil || inviteEvent.Type() != spec.MRoomMember || inviteEvent.StateKey() == nil {
+				return nil, spec.Forbidden("fedClient.SendInviteV3 did not return a membership event")
+			}
+			if membership, merr := inviteEvent.Membership(); merr != nil || membership != spec.Invite {
+				return nil, spec.Forbidden("fedClient.SendInviteV3 did not return an invite event")
+			}
+			if inviteEvent.RoomID().String() != input.EventTemplate.RoomID || string(inviteEvent.SenderID()) != input.EventTemplate.SenderID {
+				return nil, spec.Forbidden("fedClient.SendInviteV3 returned an invite for another room or sender")
+			}
+
 			// Have the inviter also sign the event
 			inviteEvent = inviteEvent.Sign(
 				string(origin), keyID, input.SigningKey,
